@@ -60,6 +60,26 @@ func (hT) SendSum(ch chan int, xs ...int) {
 	}
 	ch <- s
 }
+func (hT) Produce(ch chan int, v int)     { ch <- v }
+func (hT) Emit(out chan string, s string) { out <- s }
+func (hT) NewBox(k int) hBox              { return hBox{K: k} }
+func (hT) Twice(n int) int                { return 2 * n }
+func (hT) Half(x float64) float64         { return x / 2 }
+func (hT) Pair(n int) []int               { return []int{n, n + 1} }
+func (hT) Sum(xs ...int) int {
+	s := 0
+	for _, x := range xs {
+		s += x
+	}
+	return s
+}
+func (hT) EnvAdd(a, b int) int           { return a + b }
+func (hT) DivMod(a, b int) (int, int)    { return a / b, a % b }
+func (hT) Tag(s string, n int) string    { return s + strconv.Itoa(n) }
+
+type hBox struct{ K int }
+
+func (b hBox) Send(ch chan int, v int) { ch <- v + b.K }
 
 var h hT
 var cur *strings.Builder
